@@ -2,13 +2,15 @@
 
 Deciding theorems (coq/props/C03.v; models coq/theories/StateNewC03.v, DensityIterC03.v):
   new_echo / new_decides / overdetermined_rejected / underdetermined_rejected / reject_bad_* / reject_length
-  density_iteration_post (+ the refutation of the pre-repair code) / npt_stable_root / npt_hint_start / npt_post / newton_post
+  density_iteration_post (+ the refutation of the pre-repair code) / npt_stable_root / npt_hint_start / npt_post / newton_post /
+  newton_r_post / newton_never_ok_without_accepted_step / newton_r_is_newton
 Tie (route H, every run): the model's own definitions are evaluated by vm_compute on
   * all 2^11 presence patterns x {1,2} components (+ seeded bad-value / wrong-length injections) and diffed against the
     real State::new / State::new_full / StateBuilder::build (error kind exactly; T,V,N to 1e-13 relative; iterative
     requests: the returned state must satisfy the request to solver tolerance, bad requests must be errors),
   * density_iteration on a logging mock equation of state with an exact rational pressure: sequence of evaluated
-    densities (branch trace) and result.
+    densities (branch trace) and result,
+  * the Newton wrapper (State::new_nvu) on a logging mock ideal gas with a rational caloric step: evaluated temperatures and result.
 Partial (support search, not decided by proof): (T,p) states for the Gross-Sadowski PC-SAFT records in the stated window,
 lower-Gibbs root, hint branch, post-conditions of the Newton wrappers.
 """
@@ -169,6 +171,25 @@ def compare_di(case, model):
     return "ok", None
 
 
+def compare_newton(case, model):
+    """Newton wrapper on the mock: model = (code, (n, e), [(n, e) ...]) printed as floor(q 2^e)"""
+    code, (rn, re_), tr = model
+    mtr = [float(Fraction(int(n), 2 ** int(e))) for (n, e) in tr]
+    itr = case["trace"]
+    res = case["result"]
+    if int(code) != res["code"]:
+        return "result differs: model %s, implementation %s after %d evaluations (model %d)" % (
+            "Ok" if int(code) == 0 else "NotConverged", res, len(itr), len(mtr))
+    if int(code) == 0 and not close(float(Fraction(int(rn), 2 ** int(re_))), res["T"], TRACE_RTOL):
+        return "returned temperature differs: model %r, implementation %r" % (float(Fraction(int(rn), 2 ** int(re_))), res["T"])
+    if len(mtr) != len(itr):
+        return "number of evaluated temperatures differs: model %d, implementation %d" % (len(mtr), len(itr))
+    for j, (a, b) in enumerate(zip(mtr, itr)):
+        if not close(a, b, TRACE_RTOL):
+            return "evaluated temperature %d differs: model %r, implementation %r" % (j, a, b)
+    return None
+
+
 def run(ctx):
     del NEWTON_ERRORS[:]
     impl = V.run_harness("c03", ctx)
@@ -181,6 +202,7 @@ def run(ctx):
     # ---- model outputs
     model_pat = {}
     model_di = {}
+    model_nw = {}
     for f in gen_files:
         r = res[f]
         if r["rc"] != 0:
@@ -192,6 +214,10 @@ def run(ctx):
             if item[0] == "unparsed":
                 continue
             model_pat[int(item[0])] = (decode_out(item[1][0]), decode_out(item[1][1]))
+        for item in tags.get("NW", []):
+            if item[0] == "unparsed":
+                continue
+            model_nw[int(item[0])] = item[1]
         for item in tags.get("DI", []):
             if item[0] == "unparsed":
                 continue
@@ -252,6 +278,33 @@ def run(ctx):
                      "p_target_reduced": case["p_target"], "initial_density_reduced": case["rho0"], "implementation": res_,
                      "implementation_trace_head": case["trace"][:12], "more_mismatches": len(di_bad)}, found_input=True)
 
+    # ---- 2b. the Newton wrapper (State::new_nvu) on the caloric step mock: evaluated temperatures and result
+    nw_stat = {"ok": 0, "bad": 0, "model_not_converged": 0}
+    nw_bad = []
+    for case in impl.get("newton_cases", []):
+        m = model_nw.get(case["id"])
+        if m is None:
+            nw_bad.append((case, "no model output"))
+            continue
+        d = compare_newton(case, m)
+        if d:
+            nw_stat["bad"] += 1
+            nw_bad.append((case, d))
+        else:
+            nw_stat["ok"] += 1
+            if int(m[0]) == 13:
+                nw_stat["model_not_converged"] += 1
+    for case, d in nw_bad[:4]:
+        res_ = case["result"]
+        wrong = res_["code"] == 0 and abs(res_["u"] - case["u_target_J_mol"]) > 1e-6 * (abs(case["u_target_J_mol"]) + RGAS * res_["T"])
+        V.violation(ctx, "State::new_nvu (newton) on the caloric step mock: %s%s" % (d, " — the returned state's molar internal energy %r is not the requested %r"
+                                                                                     % (res_["u"], case["u_target_J_mol"]) if wrong else ""),
+                    {"broken": "correspondence DensityIterC03.v newton_r <-> newton (state/mod.rs)" + (" ; property: the returned state does not have the requested internal energy" if wrong else ""),
+                     "difference": d, "mock_ideal_gas": {k: case[k] for k in ("k", "amp", "T_star")}, "V_m3": case["V_m3"], "N_mol": case["N_mol"],
+                     "u_target_J_mol": case["u_target_J_mol"], "initial_temperature_K": case["T_start_K"], "implementation": res_,
+                     "implementation_trace_head": case["trace"][:8], "implementation_evaluations": len(case["trace"]), "more_mismatches": len(nw_bad)},
+                    found_input=True)
+
     # ---- 3. the repaired defect on real models: non-finite pressure must not give a state
     for c in impl["nonfinite_pressure"]:
         if c["ok"]:
@@ -268,7 +321,7 @@ def run(ctx):
     for f in sw["critical_point_failures"][:3]:
         ctx.notes.append("critical point not found, record skipped: %s" % f)
 
-    n_gen = len(impl["pattern_cases"]) + len(impl["di_cases"])
+    n_gen = len(impl["pattern_cases"]) + len(impl["di_cases"]) + len(impl.get("newton_cases", []))
     obligations += len(gen_files)
     discharged += sum(1 for f in gen_files if res[f]["rc"] == 0)
     cov = {
@@ -277,7 +330,7 @@ def run(ctx):
         "checker_cmd": "make -C coq theories/StateNewC03.vo theories/DensityIterC03.vo props/C03.vo (coqc 8.16.1) ; coqc coq/gen/C03/*.v",
         "trusted_base": [
             "Coq 8.16.1 kernel incl. the VM (vm_compute)",
-            "no axioms (Print Assumptions: closed under the global context for all 16 property theorems)",
+            "no axioms (Print Assumptions: closed under the global context for all property theorems)",
             "hand-written models StateNewC03.v / DensityIterC03.v, tied to the code by the correspondence below",
             "harness c03 (mock equation of state / ideal gas, exact dyadic printer) and this comparator",
             "floating-point round-off, overflow and underflow of finite values are modelled away (exact rationals + IEEE classes for -0, inf, NaN)",
@@ -291,6 +344,7 @@ def run(ctx):
         "pattern_mismatches": len(mism),
         "model_outcome_census": dict(sorted(class_census.items())),
         "density_iteration_trace_cases": di_stat,
+        "newton_wrapper_trace_cases": nw_stat,
         "model_evaluations": n_gen,
         "newton_wrapper_errors_on_wellformed_patterns": len(NEWTON_ERRORS),
         "newton_wrapper_error_samples": NEWTON_ERRORS[:3],
